@@ -53,7 +53,7 @@ Value& LSUBSTRExpression::value(Context & ctx) const
     case Type::NUMERIC:
       if (a1.isNull())
         return val;
-      b = Integer(*a1.numeric());
+      b = Value::toInteger(*a1.numeric());
       break;
     default:
       throw RuntimeError(EXC_RT_FUNC_ARG_TYPE_S, KEYWORDS[oper]);
